@@ -30,8 +30,9 @@ std::int64_t verif_clock_ns(void);
 void verif_clock_set_ns(std::int64_t ns);
 // Every read of system_clock/steady_clock returns the virtual clock and then advances it by a fresh symbolic
 // input "clk#k" in [step_lo, step_hi] ns (a fixed step when lo == hi; default 1000).  A timed condition wait
-// that runs into its deadline moves the clock to max(clock, deadline) + "late#k" in [0, late_max] ns.
-void verif_clock_config(std::int64_t step_lo, std::int64_t step_hi, std::int64_t late_max);
+// draws "late#k" in [0, late_max_us] at entry (enumerated); if it runs into its deadline the clock moves to
+// max(clock, deadline) + late microseconds.  Symbolic deadlines are made concrete by solver-driven enumeration.
+void verif_clock_config(std::int64_t step_lo, std::int64_t step_hi, std::int64_t late_max_us);
 // Optional, defined by a harness: called while the (single) thread waits on a condition variable with the
 // mutex released - the environment's chance to push a value or request a stop "while the loop is waiting".
 void verif_wait_hook(void);
